@@ -1,6 +1,6 @@
 /-
 C10 — property theorems: "A test-suite table behaves as a list through any edit/commit/reload history".
-Model of the REPAIRED code (fix commits 382c450, 92e9760, d65eea1, 1c0252f, 2839766).
+Model of the REPAIRED code (fix commits 382c450, 92e9760, d65eea1, 1c0252f, 2839766, 7d1c791).
 Only statements live here; the proofs are in Lemmas.lean.
 -/
 import Verif.C10.Lemmas
@@ -21,40 +21,35 @@ describes, whether the rows currently live on disk, in memory, or both, and whet
 or compressed." -/
 
 /-- REFINEMENT, one step, every operation, every argument (any slice, any step, any index, rows of the
-wrong width, unknown columns): the operation on the table is the same operation on the plain list —
-same resulting list, same stored relation, same exception — and the invariant is kept.  The only
-deviation is the documented one: `commit` on a compressed relation whose pending rows are appended
-raises `NotImplementedError` and changes nothing. -/
+wrong width, unknown columns), plain or compressed file: the operation on the table is the same
+operation on the plain list — same resulting list, same stored relation, same exception (or none) —
+and the invariant is kept. -/
 theorem step_refines (t : T) (op : Op) (h : Aligned t) :
     Aligned (step t op).1 ∧ (step t op).1.width = t.width
-    ∧ (specStep t.width (absS t) op = (absS (step t op).1, (step t op).2)
-        ∨ (op = .commit ∧ t.gz = true ∧ step t op = (t, some .notImplemented))) := by
-  have := L.step_ok t op h
-  exact ⟨this.1, this.2.1, this.2.2.2⟩
+    ∧ specStep t.width (absS t) op = (absS (step t op).1, (step t op).2) :=
+  L.step_ok t op h
 
-/-- the invariant survives every history (plain or compressed). -/
+/-- the invariant survives every history. -/
 theorem run_aligned (t : T) (ops : List Op) (h : Aligned t) : Aligned (run t ops).1 := by
   induction ops generalizing t with
   | nil => exact h
   | cons op ops ih => simp only [run]; exact ih _ (L.step_ok t op h).1
 
-/-- REFINEMENT, all histories: on a plain relation file every history of operations gives exactly the
-list, the stored relation and the sequence of exceptions that the same history gives on a plain Python
-list (`specRun`), from any reachable starting state. -/
-theorem run_refines (t : T) (ops : List Op) (h : Aligned t) (hgz : t.gz = false) :
+/-- REFINEMENT, all histories, plain or compressed: every history of operations gives exactly the list,
+the stored relation and the sequence of exceptions that the same history gives on a plain Python list
+(`specRun`), from any reachable starting state. -/
+theorem run_refines (t : T) (ops : List Op) (h : Aligned t) :
     specRun t.width (absS t) ops = (absS (run t ops).1, (run t ops).2) := by
   induction ops generalizing t with
   | nil => rfl
   | cons op ops ih =>
-    obtain ⟨hA, hw, hg, hstep⟩ := L.step_ok t op h
+    obtain ⟨hA, hw, hs⟩ := L.step_ok t op h
     simp only [run, specRun]
-    rcases hstep with hs | ⟨_, hgt, _⟩
-    · rw [hs]
-      simp only
-      have := ih (step t op).1 hA (hg hgz)
-      rw [hw] at this
-      rw [this]
-    · rw [hgz] at hgt; cases hgt
+    rw [hs]
+    simp only
+    have := ih (step t op).1 hA
+    rw [hw] at this
+    rw [this]
 
 /-- `len(table)` is the length of the list. -/
 theorem len_spec (t : T) (h : Aligned t) : len t = (abs t).length := (L.abs_length h).symm
@@ -114,10 +109,15 @@ theorem commit_idempotent (t t' : T) (h : Aligned t) (hc : commit t = .ok t') : 
   subst ht'
   exact L.commit_sync _
 
-/-- commit can only fail with `NotImplementedError`, only on a compressed relation; on a plain file it
-always succeeds. -/
-theorem commit_fails_only_on_gzip (t : T) (e : Err) (h : Aligned t) (hc : commit t = .error e) :
-    e = .notImplemented ∧ t.gz = true := L.commit_err t e h hc
+/-- commit never raises (as repaired by 7d1c791: a compressed relation is rewritten, not appended to). -/
+theorem commit_total (t : T) (h : Aligned t) : ∃ t', commit t = .ok t' := L.commit_total t h
+
+/-- "whether the file is plain or compressed": a plain relation stays plain; a compressed relation with
+pending changes stays compressed unless it becomes empty; without pending changes nothing is written. -/
+theorem commit_keeps_form (t t' : T) (h : Aligned t) (hc : commit t = .ok t') :
+    (t.gz = false → t'.gz = false)
+    ∧ (t.gz = true → t'.gz = if inTransaction t then !(abs t).isEmpty else true) :=
+  L.commit_gz t t' h hc
 
 /-- reload (and re-opening) shows the last committed relation and is not in a transaction. -/
 theorem reload_spec (t : T) : abs (sync t) = t.file ∧ inTransaction (sync t) = false :=
